@@ -162,7 +162,7 @@ def run(model, col, tier):
             col.obligations.append(ob)
     # ---------------- R14.6 ------------------------------------------------------
     sub = Collector("C03")
-    c03.run(model, sub, "quick")
+    c03.run(model, sub, "quick", share=False)
     for ob in sub.obligations:
         if ob.rule == "R03.4":
             ob.rule = "R14.6"
